@@ -352,7 +352,8 @@ GenSound ==
              /\ Sids(secret) = 1..case.nsent                         \* numbered 1..n, all distinct
              /\ Cardinality(secret) = case.nsent
              /\ case.nsent >= 1 /\ case.nsent < 90
-IdealRedacts == Done => Printed(g.case, {}) = {}
-DevsInsideSecrets == Done => Printed(g.case, Devs) \subseteq SecretLeaves(g.case)
+\* the ideal printer model writes no secret leaf; the deviations only ever add secret leaves of the case
+IdealRedacts == Done => Sids(Printed(g.case, {})) = {}
+DevsInsideSecrets == Done => Sids(Printed(g.case, Devs)) \subseteq Sids(SecretLeaves(g.case))
 Emit == Done => PrintT(<<"REPLAY", ToJson(g.case)>>)
 =============================================================================
